@@ -275,12 +275,11 @@ def r4(ctx, retsets):
             ncell += 1
             cont = []
 
-            def oracle(inst, pred, a, b, E):
-                for x, y, sw in ((a, b, False), (b, a, True)):
-                    if x[0] == "load" and vf.last_field(x[1]) == "rtr_socket.last_update" and y == ("c", 0) and pred in ("eq", "ne"):
-                        return lu0 if pred == "eq" else not lu0
-                    if x[0] == "load" and vf.last_field(x[1]) == "rtr_socket.state" and y[0] == "c" and pred in ("eq", "ne"):
-                        return (sv == y[1]) if pred == "eq" else (sv != y[1])
+            def values(pe, lu0=lu0, sv=sv):
+                if vf.last_field(pe) == "rtr_socket.last_update":
+                    return 0 if lu0 else 1700000000
+                if vf.last_field(pe) == "rtr_socket.state":
+                    return sv
                 return None
 
             def classify(inst, E, st):
@@ -288,7 +287,7 @@ def r4(ctx, retsets):
                     cont.append(1)
                     return flow.KILL
                 return None
-            outs, fl = es.count_effects(fn, pdb, classify, None, oracle=oracle)
+            outs, fl = es.count_effects(fn, pdb, classify, None, values=values)
             inloop_false = any(flow.av_single(o["ret"]) == 0 for o in outs)
             fine = (not lu0) and sv in okstates
             # with a fine socket the loop goes on; otherwise false is returned inside the loop
@@ -325,17 +324,21 @@ def r5(ctx, retsets):
     GROUP = ("arg", 2)
     latch_all = {t for (t, h) in fn.back_edges()}
     n = 0
-    for st_closed in (True, False):
+    for stname, stv in sorted(pdb.enum("rtr_mgr_status").items(), key=lambda kv: kv[1]):
+        st_closed = stv == closed
         for same in (True, False):
             for rel in ("lt", "eq", "gt"):
                 if same and rel != "eq":
                     continue
                 n += 1
 
+                def values(pe, stv=stv):
+                    if vf.last_field(pe) == "rtr_mgr_group.status" and vf.root_of(pe) != GROUP:
+                        return stv
+                    return None
+
                 def oracle(inst, pred, a, b, E):
                     for x, y, sw in ((a, b, False), (b, a, True)):
-                        if x[0] == "load" and vf.last_field(x[1]) == "rtr_mgr_group.status" and y == ("c", closed) and pred in ("eq", "ne"):
-                            return st_closed if pred == "eq" else not st_closed
                         if y == GROUP and x[0] == "load" and vf.last_field(x[1]) == "rtr_mgr_group_node.group" and pred in ("eq", "ne"):
                             return same if pred == "eq" else not same
                         if x[0] == "load" and vf.last_field(x[1]) == "rtr_mgr_group.preference" and vf.root_of(x[1]) != GROUP and \
@@ -357,13 +360,13 @@ def r5(ctx, retsets):
                         return flow.KILL
                     return None
                 SL = None
-                es.count_effects(fn, pdb, classify, retsets, oracle=oracle, cap=96)
+                es.count_effects(fn, pdb, classify, retsets, oracle=oracle, cap=96, values=values)
                 should = (not st_closed) and (not same) and rel == "gt"
                 did = [a for a in acted if a.get("stop") or a.get("report_closed") or a.get("report_other")]
                 good = bool(acted) and ((all(a.get("report_closed") == 1 and not a.get("report_other") for a in acted)) if should else not did)
-                ctx.check(good, "C15.R5", "close_less_preferable[status%sCLOSED,%s,pref %s own]" % ("=" if st_closed else "!=", "own group" if same else "other group", {"lt": "<", "eq": "=", "gt": ">"}[rel]),
+                ctx.check(good, "C15.R5", "close_less_preferable[status %s,%s,pref %s own]" % (stname[8:], "own group" if same else "other group", {"lt": "<", "eq": "=", "gt": ">"}[rel]),
                           "%s:%d" % (fn.relfile, fn.line), "actions on that group: %s (expected %s)" % ([{k: v for k, v in a.items() if k in ("stop", "report_closed", "report_other")} for a in acted][:2], "stop + CLOSED" if should else "none"),
-                          key="C15.R5:close:%s:%s:%s" % (st_closed, same, rel))
+                          key="C15.R5:close:%s:%s:%s" % (stname, same, rel))
     ctx.floor("C15.R5", n, 8)
     # stop loop covers every socket of the group
     stops = fn.calls("rtr_stop")
@@ -385,12 +388,18 @@ def r5(ctx, retsets):
                 nb += 1
                 sval = {"ERROR": ERR, "CLOSED": closed, "CONNECTING": pdb.enum_value("RTR_MGR_CONNECTING")}[st]
 
+                if same:
+                    sval = ERR      # the list element is the reporting group itself, which is in ERROR
+
+                def values(pe, sval=sval):
+                    if vf.last_field(pe) == "rtr_mgr_group.status":
+                        return ERR if vf.root_of(pe) == GROUPE else sval     # the reporting group is in ERROR
+                    if vf.last_field(pe) == "tommy_node_struct.next":
+                        return 0                                            # one list element
+                    return None
+
                 def oracle(inst, pred, a, b, E):
                     for x, y, sw in ((a, b, False), (b, a, True)):
-                        if x[0] == "load" and vf.last_field(x[1]) == "rtr_mgr_group.status" and y[0] == "c" and pred in ("eq", "ne"):
-                            if vf.root_of(x[1]) == GROUPE:
-                                return (ERR == y[1]) if pred == "eq" else (ERR != y[1])     # the reporting group is in ERROR
-                            return (sval == y[1]) if pred == "eq" else (sval != y[1])
                         if y == GROUPE and x[0] == "load" and vf.last_field(x[1]) == "rtr_mgr_group_node.group" and pred in ("eq", "ne"):
                             return same if pred == "eq" else not same
                         if x[0] == "load" and vf.last_field(x[1]) == "rtr_mgr_group.preference" and vf.root_of(x[1]) != GROUPE and \
@@ -411,7 +420,7 @@ def r5(ctx, retsets):
                     if inst.op == "call" and inst.callee == SET:
                         return ["report:%s" % flow.av_single(E.val(inst.args[2]))]
                     return None
-                outs5, fl5 = es.count_effects(fe, pdb, classify, retsets, oracle=oracle, cap=96, cell={NEXT: 0})
+                outs5, fl5 = es.count_effects(fe, pdb, classify, retsets, oracle=oracle, cap=96, values=values)
                 should = (not same) and st == "CONNECTING" and rel == "lt"
                 reps = [sorted(k for k in o["counts"] if k.startswith("report:")) for o in outs5]
                 want_rep = ["report:%d" % (ERR if should else est_v)]
